@@ -579,6 +579,16 @@ class UserSecurityModel(
         security = USMSecurityParameters.decode(
             response_msg.security_parameters
         )
+        if not (
+            isinstance(security.authoritative_engine_id, bytes)
+            and isinstance(security.authoritative_engine_boots, int)
+            and isinstance(security.authoritative_engine_time, int)
+        ):
+            # These values are cached for the lifetime of the client. Values
+            # of another type would break every following request.
+            raise SnmpError(
+                "Invalid discovery response (unexpected security parameters)"
+            )
         wrapped_vars = response_msg.scoped_pdu.data.value.varbinds
         if not wrapped_vars:
             raise SnmpError("Invalid discovery response (no varbinds returned)")
